@@ -129,6 +129,12 @@ func (r *rebuilder) copy(dst, src reflect.Value) {
 		for i := 0; i < src.NumField(); i++ {
 			r.copy(dst.Field(i), src.Field(i))
 		}
+	case reflect.Interface:
+		if src.IsNil() {
+			dst.Set(reflect.Zero(src.Type()))
+		} else {
+			dst.Set(Readable(src.Elem())) // interface values keep their identity
+		}
 	default:
 		panic("vref: Rebuild unsupported kind " + src.Kind().String())
 	}
@@ -353,6 +359,57 @@ func (g *Gen) EqRewrite(v reflect.Value) (reflect.Value, int) {
 			}
 			if ch {
 				x.SetComplex(complex(re, im))
+				n++
+				commit()
+			}
+		case reflect.Ptr:
+			if !x.IsNil() {
+				walk(x.Elem(), commit)
+			}
+		case reflect.Slice, reflect.Array:
+			if x.Kind() == reflect.Slice && x.IsNil() {
+				return
+			}
+			for i := 0; i < x.Len(); i++ {
+				walk(x.Index(i), commit)
+			}
+		case reflect.Map:
+			if x.IsNil() {
+				return
+			}
+			for _, k := range sortedKeys(x) {
+				k := k
+				tmp := reflect.New(x.Type().Elem()).Elem()
+				deepAssign(tmp, x.MapIndex(k))
+				walk(tmp, func() { x.SetMapIndex(k, tmp); commit() })
+			}
+		case reflect.Struct:
+			for i := 0; i < x.NumField(); i++ {
+				walk(x.Field(i), commit)
+			}
+		}
+	}
+	walk(c, func() {})
+	return c, n
+}
+
+// SwapStrings rebuilds v replacing every string leaf equal to a by b and vice versa
+// (used to construct hash-colliding values such as "Aa" / "BB"). n is the number of swaps.
+func SwapStrings(v reflect.Value, a, b string) (reflect.Value, int) {
+	c := Rebuild(v, RebuildOpt{})
+	n := 0
+	var walk func(x reflect.Value, commit func())
+	walk = func(x reflect.Value, commit func()) {
+		x = Settable(x)
+		switch x.Kind() {
+		case reflect.String:
+			switch x.String() {
+			case a:
+				x.SetString(b)
+				n++
+				commit()
+			case b:
+				x.SetString(a)
 				n++
 				commit()
 			}
